@@ -488,7 +488,14 @@ func c19WrongKind(e *core.Env, rep *core.Report, bin, root string) {
 		"conv_on_var_later":    "// X is a value.\n// goverter:converter\nvar X = 1\n",
 		"conv_on_struct_later": "// X is a struct.\n//\n//goverter:converter\ntype X struct{}\n",
 		"vars_on_type_block":   "/*\nX is an interface.\ngoverter:variables\n*/\ntype X interface{ M(int) int }\n",
-		"conv_on_import":       "// goverter:converter\nimport \"fmt\"\n\nvar _ = fmt.Sprint\n",
+		// markers on single declarations inside a parenthesized block
+		"vars_on_valuespec":                 "var (\n\t// goverter:variables\n\tConv func(a int) int\n)\n",
+		"conv_on_valuespec":                 "var (\n\t// goverter:converter\n\tX = 1\n)\n",
+		"conv_on_constspec":                 "const (\n\t// goverter:converter\n\tX = 1\n\tY = 2\n)\n",
+		"vars_on_constspec":                 "const (\n\tX = 1\n\t// goverter:variables\n\tY = 2\n)\n",
+		"vars_on_typespec":                  "type (\n\t// goverter:variables\n\tX interface{ M(int) int }\n)\n",
+		"bogus_on_typespec_of_marked_group": "// goverter:converter\ntype (\n\t// goverter:bogusSetting x\n\tX interface{ M(int) int }\n)\n",
+		"conv_on_import":                    "// goverter:converter\nimport \"fmt\"\n\nvar _ = fmt.Sprint\n",
 	}
 	var names []string
 	for n := range cases {
